@@ -242,6 +242,54 @@ func verif_C04_pivots(kind, n, perm int) {
 	VerifReach("pivots")
 }
 
+// fp interpretation, concrete entries: a non-singular permuted diagonal matrix
+// (every pivot order) is never rejected. Zero pivots, which the real
+// interpretation excludes by its definedness assumptions, are visible here; the
+// entries are concrete because only the control flow matters (exhaustive over
+// the n! pivot orders, no solver involved).
+func verif_C04_pivots_fp(kind, n, perm int) {
+	pi := permutation(n, perm)
+	a := NullDenseMatrix(elemType(kind), n, n)
+	for i := 0; i < n; i++ {
+		a.At(pi[i], i).SetFloat64(float64(2*i + 3))
+	}
+	b := NullDenseVector(elemType(kind), n)
+	for i := 0; i < n; i++ {
+		b.At(i).SetFloat64(1)
+	}
+	x := NullDenseMatrix(elemType(kind), n, n)
+	x.SetIdentity()
+	var err error
+	p := VerifPanics(func() { err = gaussJordan.Run(a, x, b) })
+	VerifAssert("nonsingular-permuted-diagonal-accepted", !p && err == nil)
+	if !p && err == nil {
+		for i := 0; i < n; i++ {
+			VerifAssertEqF("solution-entry", b.Float64At(i), 1/float64(2*i+3))
+		}
+	}
+	VerifReach("pivots-fp")
+}
+
+// positive-definite inverse called twice with one caller-supplied InSitu: the
+// second result must not depend on what the first call left in the buffers
+func verif_C04_pd_reuse(kind, n int) {
+	inSitu := &matrixInverse.InSitu{}
+	a1, _ := symMatrix(kind, n, 2, "p")
+	var err error
+	p := VerifPanics(func() { _, err = matrixInverse.Run(a1, matrixInverse.PositiveDefinite{true}, inSitu) })
+	if p || err != nil {
+		return
+	}
+	a2, A2 := symMatrix(kind, n, 2, "q")
+	var r Matrix
+	p = VerifPanics(func() { r, err = matrixInverse.Run(a2, matrixInverse.PositiveDefinite{true}, inSitu) })
+	if p || err != nil {
+		return
+	}
+	VerifReach("pd-reuse")
+	assertProductIsIdentity("second-call:A.inv(A)=I", A2, r)
+}
+
 func permutation(n, idx int) []int {
 	elems := make([]int, n)
 	for i := range elems {
@@ -273,4 +321,6 @@ func init() {
 	VerifRegister("verif_C04_backsub", func(a []int) { verif_C04_backsub(a[0], a[1]) })
 	VerifRegister("verif_C04_determinant", func(a []int) { verif_C04_determinant(a[0], a[1]) })
 	VerifRegister("verif_C04_pivots", func(a []int) { verif_C04_pivots(a[0], a[1], a[2]) })
+	VerifRegister("verif_C04_pivots_fp", func(a []int) { verif_C04_pivots_fp(a[0], a[1], a[2]) })
+	VerifRegister("verif_C04_pd_reuse", func(a []int) { verif_C04_pd_reuse(a[0], a[1]) })
 }
